@@ -238,6 +238,21 @@ func (w *world) cobs(p string, id int, v2 bool) string {
 		p, found, p, vhlib.FmtList(w.rootIDs(mem)), p, vhlib.FmtList(w.rootIDs(db)), p, fs, p, capacity, p, rootok, p, rn, p, to, p, from)
 }
 
+// persisted returns the contract's list as the store holds it.
+func (w *world) persisted(f types.FileContractID, v2 bool) []types.Hash256 {
+	var all map[types.FileContractID][]types.Hash256
+	var err error
+	if v2 {
+		all, err = w.store.V2SectorRoots()
+	} else {
+		all, err = w.store.SectorRoots()
+	}
+	if err != nil {
+		w.t.Fatal("SectorRoots:", err)
+	}
+	return all[f]
+}
+
 // refok: every root of the list is still stored and referenced (Store.HasSector)
 func (w *world) refok(list []types.Hash256) int {
 	for _, h := range list {
@@ -306,7 +321,9 @@ func (w *world) faulted(k int, fn func() error) (res string, fired bool) {
 	if k >= 0 {
 		fired, _ = w.inj.Disarm()
 	}
+	w.mu.Lock()
 	w.lastFired = fired
+	w.mu.Unlock()
 	return classify(panicked, msg, fired, err), fired
 }
 
@@ -532,7 +549,7 @@ func (w *world) doRenew1(tr *vhlib.Trace, p opLine, rc racer) {
 	rc.start()
 	defer rc.wait()
 	defer w.mgr.Unlock(f)
-	before := w.mgr.SectorRoots(f)
+	before := w.persisted(f, false) // the list the renewal hands over: every root of it must stay referenced
 
 	clearing := existing
 	clearing.Revision.RevisionNumber = types.MaxRevisionNumber
@@ -593,7 +610,7 @@ func (w *world) doRenew2(tr *vhlib.Trace, p opLine, rc racer) {
 			w.cobs("", id, true), w.cobs("n", nid, true)))
 		return
 	}
-	before := w.mgr.SectorRoots(f)
+	before := w.persisted(f, true) // the list the renewal hands over: every root of it must stay referenced
 	nf := f.V2RenewalID()
 	fc := st.Revision
 	fc.RevisionNumber = p.U64("nrn")
@@ -703,7 +720,9 @@ func (w *world) run(tr *vhlib.Trace, ops []opLine) {
 }
 
 func (w *world) exec(tr *vhlib.Trace, p opLine, rc racer) {
+	w.mu.Lock()
 	w.lastFired = false
+	w.mu.Unlock()
 	switch p.Op {
 	case "store":
 		w.doStore(tr, p)
